@@ -25,6 +25,13 @@ Tree == <<
   [kind |-> "bare",    at |-> <<"outside", "bare.git">>,  id |-> "out-bare"],
   [kind |-> "bare",    at |-> <<"sib.git">>,              id |-> "out-sib"],        \* siblings of R: one ".." away
   [kind |-> "repo",    at |-> <<"sibr">>,                 id |-> "out-sibr"],
+  \* a sibling directory whose NAME extends R's name (R = .../root, sibling = .../root-private): outside R although
+  \* its host path has R's host path as a textual prefix
+  [kind |-> "bare",    at |-> <<"root-private", "secret.git">>, id |-> "out-privbare"],
+  [kind |-> "repo",    at |-> <<"root-private", "w">>,    id |-> "out-privrepo"],
+  \* absolute gitfiles whose text starts with R's host path but which leave R (tk "root": written un-normalised)
+  [kind |-> "gitfile", at |-> <<"root", "gfabsdd">>,      to |-> <<"root", "..", "sibr", ".git">>, tk |-> "root"],
+  [kind |-> "gitfile", at |-> <<"root", "gfabspriv">>,    to |-> <<"root-private", "w", ".git">>, tk |-> "root"],
   [kind |-> "gitfile", at |-> <<"root", "gfrel">>,        to |-> <<"..", "a", ".git">>, tk |-> "rel"],
   [kind |-> "gitfile", at |-> <<"root", "gfout">>,        to |-> <<"..", "..", "outside", "repo", ".git">>, tk |-> "rel"],
   [kind |-> "gitfile", at |-> <<"root", "gfabs">>,        to |-> <<"outside", "repo", ".git">>, tk |-> "root"],
@@ -51,21 +58,23 @@ OutsideIds == {Tree[i].id : i \in {j \in RepoIdx : ~IsPrefixOf(R, Tree[j].at)}}
 \* ---- requests
 ReqTok == {"a", "bare.git", "bare", "gfrel", "gfout", "gfabs", "gfabsin", "gflink", "lnkout", "lnkin", "lnkabs",
            "lnkbare", "lnkgit", "sub", ".git", "..", ".", "", "outside", "repo", "%2e%2e", "nope", "ABS",
-           "sib", "sib.git", "sibr"}
-\* "ABS" stands for the host-absolute path of the sandbox origin (only meaningful as first token)
-Requests == UNION {[1..k -> ReqTok] : k \in 1..MaxReq}
+           "sib", "sib.git", "sibr", "secret.git", "w", "gfabsdd", "gfabspriv", "ABSR", "ABSR..", "ABSRX"}
+\* host-absolute prefixes (only as first token): ABS = host path of the sandbox origin, ABSR = host path of R itself,
+\* ABSR.. = host path of R followed by "/.." (un-normalised), ABSRX = host path of R with the suffix "-private"
+AbsTok == {"ABS", "ABSR", "ABSR..", "ABSRX"}
+Requests == {q \in UNION {[1..k -> ReqTok] : k \in 1..MaxReq} : \A i \in 2..Len(q) : q[i] \notin AbsTok}
 
 \* scenario key of a request for finding signatures (first that applies)
-Key(q) == IF q[1] = "ABS" THEN "host-absolute-path"
+Key(q) == IF q[1] \in AbsTok THEN "host-absolute-path"
           ELSE IF \E i \in 1..Len(q) : q[i] = ".." THEN "dotdot"
-          ELSE IF \E i \in 1..Len(q) : q[i] \in {"gfout", "gfabs", "gflink", "gfrel", "gfabsin"} THEN "gitfile"
+          ELSE IF \E i \in 1..Len(q) : q[i] \in {"gfout", "gfabs", "gflink", "gfrel", "gfabsin", "gfabsdd", "gfabspriv"} THEN "gitfile"
           ELSE IF \E i \in 1..Len(q) : q[i] \in {"lnkout", "lnkabs", "lnkbare", "lnkgit", "sub", "lnkin"} THEN "symlink"
           ELSE "plain"
 
 \* the request read as a location below R (ABS leaves the sandbox reading: it is a host path)
 AsReq(q) == R \o q
-LexIn(q)  == q[1] # "ABS" /\ Inside(Lex(AsReq(q)), R)
-PhysIn(q) == q[1] # "ABS" /\ Inside(Phys(AsReq(q), Links, TRUE), R)
+LexIn(q)  == q[1] \notin AbsTok /\ Inside(Lex(AsReq(q)), R)
+PhysIn(q) == q[1] \notin AbsTok /\ Inside(Phys(AsReq(q), Links, TRUE), R)
 
 Row(q) == [req |-> q, key |-> Key(q), lexin |-> LexIn(q), physin |-> PhysIn(q)]
 ASSUME EmitRows => /\ ndJsonSerialize("loaderjail_rows.ndjson", SetToSeq({Row(q) : q \in Requests}))
@@ -76,7 +85,7 @@ Init == req \in Requests
 Next == UNCHANGED req
 \* model-level theorems about the tree and the two readings
 PlainStaysIn   == Key(req) = "plain" => LexIn(req) /\ PhysIn(req)            \* only dots, links, gitfiles or host paths can leave R
-NoDotsLexIn    == (req[1] # "ABS" /\ \A i \in 1..Len(req) : req[i] # "..") => LexIn(req)
+NoDotsLexIn    == (req[1] \notin AbsTok /\ \A i \in 1..Len(req) : req[i] # "..") => LexIn(req)
 TreeHasEscapes == /\ \E q \in Requests : LexIn(q) /\ ~PhysIn(q)              \* the planted links really lead outside
                   /\ InsideIds # {} /\ OutsideIds # {}
 =============================================================================
